@@ -82,7 +82,7 @@ CATALOGUE = [
     lambda: {"_typename": TypeRef("Node"), "id": "tn"}, lambda: [{"_typename": TypeRef("B"), "id": "tb", "flag": True}, {"_typename": TypeRef("C"), "id": "tc2", "x": 2}],
     lambda: world.Obj({"_typename": TypeRef("C"), "id": "oc", "x": 3}),
 ]
-NOT_JSON = {0, 1, 2, 53, 25, 60, 61, 62, 63, 64, 65, 26, 27, 28, 29, 30, 31, 32, 38, 39, 40, 41, 44, 48, 54}     # entries a pass-through custom scalar would leak by design
+NOT_JSON = {0, 1, 2, 53, 25, 59, 60, 61, 62, 63, 64, 26, 27, 28, 29, 30, 31, 32, 38, 39, 40, 41, 44, 48, 54}     # entries a pass-through custom scalar would leak by design
 
 
 def _warm():
